@@ -320,14 +320,12 @@ func parseInteger_bytes(b []byte) (u uint64, neg, ok bool) {
 		var fail bool
 		u, fail = parseUint64_reader(r)
 		if fail {
-			f, err := parseFloat64(b)
-			if err != nil {
-				return
-			}
-			if !noFrac64(math.Float64bits(f)) {
-				return
-			}
-			u = uint64(f)
+			// r.mantissa * 10^r.exp is the exact value of the literal here: it has a
+			// fractional part (or does not fit a uint64), so it is not an integer we can return.
+			// (Re-reading it as a float64 used to accept literals whose fraction is lost
+			// in the float rounding, e.g. 100000000000.00000001.)
+			u = 0
+			return
 		}
 		ok = true
 		return
